@@ -135,11 +135,57 @@ func c06SinterpOffByOne(src string) bool {
 	ind := func(l string) int { return len(l) - len(strings.TrimLeft(l, " \t")) }
 	// lines that begin inside a several-line raw string are text, not layout
 	inside := make([]bool, len(lines))
-	open := false
-	for i, l := range lines {
-		inside[i] = open
-		if strings.Count(l, "`")%2 == 1 {
-			open = !open
+	{
+		// a small scanner: comments and "..." strings may hold a backtick that opens nothing
+		const (
+			code = iota
+			lineComment
+			blockComment
+			str
+			raw
+		)
+		st, ln := code, 0
+		for i := 0; i < len(src); i++ {
+			c := src[i]
+			if c == '\n' {
+				ln++
+				if st == lineComment {
+					st = code
+				}
+				if ln < len(inside) {
+					inside[ln] = st == raw
+				}
+				continue
+			}
+			switch st {
+			case code:
+				switch {
+				case c == '/' && i+1 < len(src) && src[i+1] == '/':
+					st = lineComment
+				case c == '/' && i+1 < len(src) && src[i+1] == '*':
+					st = blockComment
+					i++
+				case c == '"':
+					st = str
+				case c == '`':
+					st = raw
+				}
+			case blockComment:
+				if c == '*' && i+1 < len(src) && src[i+1] == '/' {
+					st = code
+					i++
+				}
+			case str:
+				if c == '\\' {
+					i++
+				} else if c == '"' {
+					st = code
+				}
+			case raw:
+				if c == '`' {
+					st = code
+				}
+			}
 		}
 	}
 	for i, l := range lines {
